@@ -53,6 +53,9 @@ static void user_operations(const Scenario* sc) {
   // at most one output, depfile or log is deleted
   std::vector<std::string> outs;
   for (size_t i = 0; i < g_tree->files.size(); i++) { VFile& f = g_tree->files[i]; bool is_src = false; for (size_t k = 0; k < src.size(); k++) is_src = is_src || src[k] == f.name; if (!is_src && f.exists && f.name != ".ninja_lock" && f.name != "build.ninja") outs.push_back(f.name); }
+#ifdef NO_DELETE
+  outs.clear();
+#endif
   int del = verif_choice("delete_output", (int)outs.size() + 1);
   if (del > 0) { g_tree->remove(outs[del - 1]); verif_note(("delete " + outs[del - 1]).c_str()); }
   // the manifest is switched to another variant (changed command line, added statement ...)
@@ -475,6 +478,30 @@ extern "C" int harness_main() {
     }
     VERIF_ASSERT(!r.stuck, "C17: ninja never ends with 'stuck' instead of a diagnostic");
     if (inv == 0 && verif_bool("edit_source_between")) { std::vector<std::string> src = split_words(sc->sources); edit_file(src[0]); }
+  }
+  return 0;
+}
+#elif defined(MODE_DEPFILE_BYTES)
+// ------------------------------------------------------------------------------------------------ C13: arbitrary depfile bytes through both consumers (Builder::ExtractDeps for deps=gcc, ImplicitDepLoader::LoadDepFile)
+#ifndef VERIF_N
+#define VERIF_N 2
+#endif
+extern "C" int harness_main() {
+  ir2c_global_ctors();
+  const Scenario* sc = &kScenarios[SCENARIO];
+  init_tree(sc);
+  std::string bytes;
+  if (verif_bool("mutated_valid_depfile")) { bytes = "o: c hdr \\\n x\n"; int pos = (int)verif_nondet("mutate_at", 0, (long)bytes.size() - 1); bytes[pos] = (char)verif_nondet("byte", 0, 255); verif_reach("mutated"); }
+  else { int len = (int)verif_nondet("len", 0, VERIF_N); bytes.assign((size_t)len, 'x'); for (int i = 0; i < len; i++) bytes[i] = (char)verif_nondet("byte", 0, 255); verif_reach("arbitrary"); }
+  g_depfile_override = &bytes;
+  for (int inv = 0; inv < 2; inv++) {
+    InvocationOpts o; o.targets = split_words(sc->targets); o.run.parallelism = 1;
+    InvocationResult r = invoke(o);
+    VERIF_ASSERT(r.parsed, "the scenario manifest parses");
+    observe(r);
+    VERIF_ASSERT(!r.stuck, "C06: ninja never gives up with 'stuck'");
+    bool failed = !r.added || r.rc != 0;
+    if (failed) { VERIF_ASSERT(!r.err.empty(), "C13: a depfile ninja cannot use is reported as an error"); verif_reach("rejected"); } else verif_reach("accepted");
   }
   return 0;
 }
